@@ -11,6 +11,7 @@ import (
 
 	"github.com/ipfs/go-cid"
 	"github.com/ipfs/go-unixfsnode/data/builder"
+	quickbuilder "github.com/ipfs/go-unixfsnode/data/builder/quick"
 	dagpb "github.com/ipld/go-codec-dagpb"
 	"github.com/ipld/go-ipld-prime"
 	cidlink "github.com/ipld/go-ipld-prime/linking/cid"
@@ -316,6 +317,78 @@ func TestC11(t *testing.T) {
 				checkSizes(c, st, linkCid(sl), ssz, fmt.Sprintf("symlink through an encoder of style %d", i%4))
 			}
 			c.Sig(fmt.Sprintf("framed|w%d|links%s", w, sizeClass(links)), links >= 1)
+		})
+	}
+	// the quick builder over nodes it did not make itself (any implementation of its Node interface),
+	// mixed with its own: link sizes are what each node reports, the directory's size the true total
+	for i := 0; i < r.Pick(8, 60); i++ {
+		i := i
+		r.Case(fmt.Sprintf("quick-foreign-nodes/%d", i), map[string]any{"round": i}, func(c *mon.Case) {
+			rr := c.Rand()
+			st := store.New()
+			names := gen.Names(rr, gen.FamASCII, 2+rr.Intn(30))
+			_, model, sizes := childEntries(st, names)
+			var root ipld.Link
+			var sz int64
+			var szErr error
+			if !c.Guard("quick builder", func() {
+				quickbuilder.Store(st.LinkSystem(false), func(b *quickbuilder.Builder) error {
+					m := map[string]quickbuilder.Node{}
+					for k, n := range names {
+						if k%3 == 2 {
+							m[n] = b.NewBytesFile(gen.Content(rr, "rand", 1+rr.Intn(400)))
+						} else {
+							m[n] = qnode{model[n], int64(sizes[n]), false}
+						}
+					}
+					d := b.NewMapDirectory(m)
+					root = d.Link()
+					sz, szErr = d.Size()
+					return nil
+				})
+			}) || root == nil || szErr != nil {
+				return
+			}
+			c.Count("quick_builds_with_foreign_nodes", 1)
+			links, _ := checkSizes(c, st, linkCid(root), uint64(sz), fmt.Sprintf("quick-builder directory of %d entries, two thirds of them foreign Node values", len(names)))
+			c.Sig("quick-foreign|"+sizeClass(len(names)), links >= 1)
+		})
+	}
+	// a link system without write storage: a builder that does not refuse it has no excuse for
+	// reporting other sizes than with storage
+	for i := 0; i < r.Pick(6, 30); i++ {
+		i := i
+		r.Case(fmt.Sprintf("no-write-storage/%d", i), map[string]any{"round": i}, func(c *mon.Case) {
+			rr := c.Rand()
+			content := gen.Content(rr, "rand", 1+rr.Intn(2000))
+			chunker := fmt.Sprintf("size-%d", 16+rr.Intn(200))
+			st := store.New()
+			var l, l2 ipld.Link
+			var sz, sz2 uint64
+			var err, err2 error
+			withWidth(3, func() { l, sz, err = builder.BuildUnixFSFile(bytes.NewReader(content), chunker, st.LinkSystem(false)) })
+			nols := store.New().LinkSystem(false)
+			nols.StorageWriteOpener = nil
+			c.Guard("build without write storage", func() {
+				withWidth(3, func() { l2, sz2, err2 = builder.BuildUnixFSFile(bytes.NewReader(content), chunker, nols) })
+			})
+			c.Count("builds_without_write_storage", 1)
+			if err != nil {
+				c.Violation("C11|build-error", "%v", err)
+				return
+			}
+			if err2 == nil && (l2 == nil || l2.String() != l.String() || sz2 != sz) {
+				c.Violation("C11|returned-size|no-write-storage", "a file of %d bytes built through a link system without write storage succeeds with (%v, %d); with storage it is (%v, %d)", len(content), l2, sz2, l, sz)
+			}
+			sl, ssz, serr := builder.BuildUnixFSSymlink("a/target", st.LinkSystem(false))
+			var sl2 ipld.Link
+			var ssz2 uint64
+			var serr2 error
+			c.Guard("symlink without write storage", func() { sl2, ssz2, serr2 = builder.BuildUnixFSSymlink("a/target", nols) })
+			if serr == nil && serr2 == nil && (sl2 == nil || sl2.String() != sl.String() || ssz2 != ssz) {
+				c.Violation("C11|returned-size|no-write-storage", "a symlink built through a link system without write storage succeeds with (%v, %d); with storage it is (%v, %d)", sl2, ssz2, sl, ssz)
+			}
+			c.Sig(fmt.Sprintf("no-write-storage|refused=%v", err2 != nil), true)
 		})
 	}
 	// big sharded directories and symlinks
